@@ -980,6 +980,9 @@ def _cheaply_valid(t):
         return True
     if z3.is_eq(t) and t.children()[0].sort_kind() == z3.Z3_REAL_SORT:
         return polyid.is_identity(t)
+    if z3.is_or(t):
+        # a disjunction is valid if one disjunct is valid by normal form (e.g. 'x is a combination of simplex s' for the right s)
+        return any(all(_cheaply_valid(p) for p in _flatten_and(d)) for d in t.children())
     return False
 
 
